@@ -439,7 +439,7 @@ Proof.
 Qed.
 
 Definition call_tail (f : nat) (c : ctx) (anon : option val) (name : list Z) (fnv : fn)
-  (args' : list expr) (ds0 : list diag) : val * list diag :=
+  (args' : list expr) (ds0 : list diag) (emk : marks) : val * list diag :=
   let np := length (f_params fnv) in
   if (length args' <? np)%nat then (dyn_val, [derr S_NotEnoughArgs [FStr name []]])
   else if (match f_varparam fnv with None => true | Some _ => false end) && (np <? length args')%nat
@@ -449,7 +449,7 @@ Definition call_tail (f : nat) (c : ctx) (anon : option val) (name : list Z) (fn
   if has_errors ds then (dyn_val, ds)
   else if has_unsupported ds then (dyn_val, ds)
   else match fn_call fnv argvals with
-       | CallOk v => (v, ds)
+       | CallOk v => (with_marks v emk, ds)
        | CallArgErr i => (dyn_val, ds ++ [derr S_InvalidFuncArg []])
        | CallErr => (dyn_val, ds ++ [derr S_ErrorInCall [FStr name []]])
        | CallUnsupported => (dyn_val, ds ++ [dunsupported])
@@ -474,12 +474,12 @@ Proof. induction l as [|x r IH]; simpl; [reflexivity|]. rewrite IH. reflexivity.
 Lemma Forall2_len {A B} (R : A -> B -> Prop) l l' : Forall2 R l l' -> length l = length l'.
 Proof. induction 1; simpl; auto. Qed.
 
-Lemma call_tail_refines f c anon name fnv es ss ds0 :
+Lemma call_tail_refines f c anon name fnv es ss ds0 emk : emk = [] ->
   fn_ok fnv -> Forall2 (fun e s => refines1 (eval f c anon e) s) es ss -> has_errors ds0 = false ->
-  refines1 (call_tail f c anon name fnv es ds0)
+  refines1 (call_tail f c anon name fnv es ds0 emk)
            (match all_sok ss with Some vs => spec_call fnv vs | None => SErr end).
 Proof.
-  intros FO F2 ED. pose proof (Forall2_len _ _ _ F2) as LEN. unfold call_tail.
+  intros -> FO F2 ED. pose proof (Forall2_len _ _ _ F2) as LEN. unfold call_tail. cbn [with_marks].
   destruct (length es <? length (f_params fnv))%nat eqn:A1.
   { replace (match all_sok ss with Some vs => spec_call fnv vs | None => SErr end) with SErr;
       [apply refines1_err; discriminate|].
@@ -574,7 +574,8 @@ Proof.
       destruct t; cbn [is_null unmark fst]; apply refines1_errs; rewrite has_errors_app; simpl; apply orb_true_r.
     + (* list *)
       cbn [is_null unmark fst is_known negb elements with_marks].
-      change (refines1 (call_tail f c anon name fnv (rev init_rev ++ map (fun kv => ELit (snd kv)) (index_from 0 l)) xds)
+      change (refines1 (call_tail f c anon name fnv (rev init_rev ++ map (fun kv => ELit (snd kv)) (index_from 0 l)) xds
+                               (match index_from 0 l with [] => [] | _ :: _ => [] end))
         (match match all_sok (map (spec_eval E) (rev init_rev)) with Some x => Some (x ++ [VList t l]) | None => None end with
          | Some vs => match expand_last vs with Some vs' => spec_call fnv vs' | None => SErr end
          | None => SErr end)).
@@ -586,7 +587,7 @@ Proof.
         with (match all_sok (map (spec_eval E) (rev init_rev) ++ map SOk l) with Some vs => spec_call fnv vs | None => SErr end).
       2: { rewrite all_sok_app, all_sok_oks. destruct (all_sok (map (spec_eval E) (rev init_rev))) as [vi|]; [|reflexivity].
            unfold expand_last. rewrite rev_app_distr. simpl. rewrite rev_involutive. reflexivity. }
-      apply call_tail_refines; auto.
+      apply call_tail_refines; auto; [destruct l; reflexivity|].
       apply Forall2_app; [apply Forall_Forall2_map; exact CHi|].
       rewrite good_VList in G. clear -G FPOS. induction l as [|x r IHl]; simpl; constructor.
       * rewrite eval_lit_pos by auto. apply refines1_ok. unfold goods in G. simpl in G. apply andb_true_iff in G. tauto.
@@ -594,7 +595,8 @@ Proof.
     + (* set: excluded *) discriminate D2.
     + (* tuple *)
       cbn [is_null unmark fst is_known negb elements with_marks].
-      change (refines1 (call_tail f c anon name fnv (rev init_rev ++ map (fun kv => ELit (snd kv)) (index_from 0 l)) xds)
+      change (refines1 (call_tail f c anon name fnv (rev init_rev ++ map (fun kv => ELit (snd kv)) (index_from 0 l)) xds
+                               (match index_from 0 l with [] => [] | _ :: _ => [] end))
         (match match all_sok (map (spec_eval E) (rev init_rev)) with Some x => Some (x ++ [VTuple l]) | None => None end with
          | Some vs => match expand_last vs with Some vs' => spec_call fnv vs' | None => SErr end
          | None => SErr end)).
@@ -606,13 +608,13 @@ Proof.
         with (match all_sok (map (spec_eval E) (rev init_rev) ++ map SOk l) with Some vs => spec_call fnv vs | None => SErr end).
       2: { rewrite all_sok_app, all_sok_oks. destruct (all_sok (map (spec_eval E) (rev init_rev))) as [vi|]; [|reflexivity].
            unfold expand_last. rewrite rev_app_distr. simpl. rewrite rev_involutive. reflexivity. }
-      apply call_tail_refines; auto.
+      apply call_tail_refines; auto; [destruct l; reflexivity|].
       apply Forall2_app; [apply Forall_Forall2_map; exact CHi|].
       rewrite good_VTuple in G. clear -G FPOS. induction l as [|x r IHl]; simpl; constructor.
       * rewrite eval_lit_pos by auto. apply refines1_ok. unfold goods in G. simpl in G. apply andb_true_iff in G. tauto.
       * apply IHl. unfold goods in *. simpl in G. apply andb_true_iff in G. tauto.
   - (* plain call *)
-    change (refines1 (call_tail f c anon name fnv args [])
+    change (refines1 (call_tail f c anon name fnv args [] [])
               (match all_sok (map (spec_eval E) args) with Some vs => spec_call fnv vs | None => SErr end)).
     apply call_tail_refines; auto. apply Forall_Forall2_map. exact CH.
 Qed.
